@@ -192,6 +192,10 @@ class ConstantReplacement(MutationOperator):
         if not isinstance(value, int | float) or isinstance(value, bool):
             return None
 
+        if value + 1 == value:
+            # E.g., floats beyond 2**53: the "mutant" would equal the original.
+            return None
+
         return ast.Constant(value + 1)
 
     def mutate_Constant_num_decrement(  # noqa: N802
@@ -211,7 +215,7 @@ class ConstantReplacement(MutationOperator):
         if not isinstance(value, int | float) or isinstance(value, bool):
             return None
 
-        if value == 1:
+        if value == 1 or value - 1 == value:
             return None
 
         return ast.Constant(value - 1)
